@@ -28,7 +28,9 @@ def scenario(w):
     ev = [e for e in w['locks'] if e[0] == 'lock']
     L.append('conc_sched ' + ' '.join(f"{e[1]}:{e[4]}:{e[5]}" for e in ev))
     L.append('stats ' + cname)
+    L.append('execs')
     L.append('conc_run')
+    L.append('execs')
     L.append('stats ' + cname)
     L.append('keys ' + cname)
     lim = rec['intended']['limit']
@@ -52,6 +54,18 @@ def replay(f, w):
         if blocked: return True, 'native threads driven along the witness schedule never return (deadlock): ' + blocked[0] + ' ' + info, lines
         return False, 'native threads all returned ' + info, lines
     if blocked: return False, 'native run blocked ' + info, lines
+    if f['prop'] == 'C03':
+        ip = [i for i, l in enumerate(lines) if l.startswith('conc_progress')]
+        ex = []
+        if ip:
+            before = [int(l.split()[1]) for l in lines[:ip[0]] if l.startswith('execs ') and len(l.split()) == 2]
+            after = [int(l.split()[1]) for l in lines[ip[0]:] if l.startswith('execs ') and len(l.split()) == 2]
+            if before and after: ex = [before[-1], after[0]]
+        if len(ex) >= 2 and w.get('execs_conc') is not None:
+            d = ex[1] - ex[0]
+            if d == w['execs_conc'] and 'stuck=true' not in info: return True, f"natively the body ran {d} times during the concurrent phase, as on the interpreted schedule on which the claim fails " + info, lines
+            return False, f"natively the body ran {d} times during the concurrent phase (interpreter: {w['execs_conc']}) " + info, lines
+        return False, 'execution counts not observable ' + info, lines
     if f['prop'] == 'C15':
         st = [l.split()[1:] for l in lines if l.startswith('stats ') and 'none' not in l]
         if len(st) >= 2:
